@@ -65,12 +65,13 @@ def run(ctx):
     mc = ctx.cfg('MC_Record', constants={'Depth': 4})
     ctx.tlc('MC_Record', mc, timeout=2400, heap='8g')
     # ... and with $k += d, sub/gsub on a field and getline $k in the menu (quick: one step shallower, the menu is twice as large)
-    mc2 = ctx.cfg('MC_Record', name='MC_Record_sub', constants={'Depth': 3 if q else 4, 'WithSub': 'TRUE'})
+    mc2 = ctx.cfg('MC_Record', name='MC_Record_sub', constants={'Depth': 3, 'WithSub': 'TRUE'})
     ctx.tlc('MC_Record', mc2, timeout=3000, heap='8g')
     if not q:
-        # deeper histories by random walks over the full menu (exhaustive depth 5 is ~10^8 states)
+        # deeper histories by random walks over the full menu (exhaustive depth 4 with the full menu is 6 million states,
+        # depth 5 ~10^8: not worth the wall time next to the walks)
         mc3 = ctx.cfg('MC_Record', name='MC_Record_walks', constants={'Depth': 9, 'WithSub': 'TRUE', 'MaxNF': 8})
-        ctx.tlc('MC_Record', mc3, simulate=30000, depth=10, workers=4, timeout=1500)
+        ctx.tlc('MC_Record', mc3, simulate=60000, depth=10, workers=4, timeout=1500)
     # 2. spec -> code: exported histories replayed on the real interpreter
     if q:
         gen = ctx.cfg('Gen_Record', constants={'Depth': 3, 'Rich': 'FALSE'})
